@@ -1,0 +1,13 @@
+//! Verification hook: forwarder for the private response validation of the header-ex client.
+
+use celestia_proto::p2p::pb::{HeaderRequest, HeaderResponse};
+use celestia_types::ExtendedHeader;
+
+use crate::p2p::header_ex::HeaderExError;
+
+pub(crate) async fn decode_and_verify_responses(
+    request: &HeaderRequest,
+    responses: &[HeaderResponse],
+) -> Result<Vec<ExtendedHeader>, HeaderExError> {
+    super::decode_and_verify_responses(request, responses).await
+}
